@@ -13,6 +13,7 @@ VARIABLES tid, l,
           phase,     \* [env -> "idle" | "running" | "ended"]
           lastObs,   \* [env -> tag the environment returned last]
           queue,     \* [env -> Seq of produced transitions not yet stored]
+          autoq,     \* [env -> Seq of rows a vector environment produced for its auto-reset calls (NEXT_STEP mode)]
           pend,      \* [env -> [src, act]] pending action choice
           executed, epsDone,
           updates,   \* number of events at which a trained component was seen changed
@@ -21,7 +22,7 @@ VARIABLES tid, l,
           seg,       \* open learning segment: [open, changed, stepIdx, iter]
           viol       \* set of <<position, clause>>
 
-vars == <<tid, l, phase, lastObs, queue, pend, executed, epsDone, updates, prevEv, iters, seg, viol>>
+vars == <<tid, l, phase, lastObs, queue, autoq, pend, executed, epsDone, updates, prevEv, iters, seg, viol>>
 
 T == Traces[tid]
 C == T.cfg
@@ -33,6 +34,7 @@ Init == /\ tid \in 1..Len(Traces) /\ l = 1
         /\ phase = [e \in 0..(Traces[tid].cfg.nenvs - 1) |-> "idle"]
         /\ lastObs = [e \in 0..(Traces[tid].cfg.nenvs - 1) |-> NoTag]
         /\ queue = [e \in 0..(Traces[tid].cfg.nenvs - 1) |-> <<>>]
+        /\ autoq = [e \in 0..(Traces[tid].cfg.nenvs - 1) |-> <<>>]
         /\ pend = [e \in 0..(Traces[tid].cfg.nenvs - 1) |-> [src |-> "none", act |-> "none"]]
         /\ executed = 0 /\ epsDone = 0 /\ updates = 0 /\ prevEv = "none" /\ viol = {}
         /\ iters = 0 /\ seg = [open |-> FALSE, changed |-> {}, stepIdx |-> 0, iter |-> 0]
@@ -73,7 +75,10 @@ SegClose == IF Closes /\ Len(C.rules) > 0
                  ELSE SegClauses(seg.changed \cup Changed, seg.stepIdx, iters, iters > seg.iter)
             ELSE {}
 (* changes of ruled components outside any learning segment *)
-OutOfSegment == IF ~seg.open /\ Len(C.rules) > 0 /\ (Changed \cap Ruled) # {} THEN {"ChangeOutsideLearning"} ELSE {}
+OutOfSegment == IF ~seg.open /\ Len(C.rules) > 0
+                THEN (IF (Changed \cap Ruled) \ SetOf(C.targets) # {} THEN {"ChangeOutsideLearning"} ELSE {})
+                     \cup (IF (Changed \cap Ruled \cap SetOf(C.targets)) # {} THEN {"TargetChangeOutsideLearning"} ELSE {})
+                ELSE {}
 (* "add" must not be treated as a learning event even when it opens a segment: its own changes are judged by StoringChangesNothing *)
 
 
@@ -100,6 +105,11 @@ EvReset ==
   /\ phase' = [phase EXCEPT ![E.env] = "running"]
   /\ lastObs' = [lastObs EXCEPT ![E.env] = E.obs]
   /\ pend' = [pend EXCEPT ![E.env] = [src |-> "none", act |-> "none"]]
+  (* a vector environment in NEXT_STEP mode answers the call after an episode end with
+     (reset observation, reward 0, no flags): that is what it produced for that call *)
+  /\ autoq' = IF C.autoreset /\ phase[E.env] = "ended"
+              THEN [autoq EXCEPT ![E.env] = Append(@, [obs |-> lastObs[E.env], act |-> "any", r |-> 0, next |-> E.obs, term |-> FALSE])]
+              ELSE autoq
   /\ Fail(Common)
   /\ UNCHANGED <<queue, executed, epsDone>>
 
@@ -107,7 +117,7 @@ EvExplore ==
   /\ E.ev = "explore"
   /\ pend' = [pend EXCEPT ![E.env] = [src |-> "explore", act |-> E.act]]
   /\ Fail(Common \cup (IF C.warmact >= 0 /\ C.start + executed >= C.warmact /\ C.explore_only_in_warmup THEN {"ExploreOnlyInWarmup"} ELSE {}))
-  /\ UNCHANGED <<phase, lastObs, queue, executed, epsDone>>
+  /\ UNCHANGED <<phase, lastObs, queue, autoq, executed, epsDone>>
 
 (* the policy / planner was evaluated on an un-batched observation *)
 EvPolicy ==
@@ -119,7 +129,7 @@ EvPolicy ==
           \cup (IF ~E.current THEN {"GreedyOnCurrentEstimate"} ELSE {})
           \cup (IF C.epsilon4 = 4 /\ C.start + executed >= C.warmact THEN {"EpsilonOneNeverGreedy"} ELSE {})
           \cup (IF C.warmact >= 0 /\ C.start + executed < C.warmact THEN {"PolicyBeforeWarmup"} ELSE {}))
-  /\ UNCHANGED <<phase, lastObs, queue, executed, epsDone>>
+  /\ UNCHANGED <<phase, lastObs, queue, autoq, executed, epsDone>>
 
 EvStep ==
   /\ E.ev = "step"
@@ -133,12 +143,13 @@ EvStep ==
      /\ executed' = executed + 1
      /\ epsDone' = IF ended /\ ~E.after_end THEN epsDone + 1 ELSE epsDone
      /\ pend' = [pend EXCEPT ![e] = [src |-> "none", act |-> "none"]]
+     /\ UNCHANGED autoq
      /\ Fail(Common
           \cup (IF ~CCanStep(phase[e]) \/ E.after_end THEN {"NoStepAfterEnd"} ELSE {})
           \cup (IF C.budget >= 0 /\ ~CWithinBudget(executed, C.budget, C.start) THEN {"BudgetRespected"} ELSE {})
           \cup (IF ~CMayContinue(epsDone, C.eplimit) THEN {"StopsAtEpisodeLimit"} ELSE {})
-          \cup (IF E.box /\ (~E.finite \/ ~CInBounds(E.a, E.lo, E.hi, C.ulpk)) THEN {"ActionInBounds"} ELSE {})
-          \cup (IF ~E.box /\ ~E.valid THEN {"ActionInBounds"} ELSE {})
+          \cup (IF C.check_bounds /\ E.box /\ (~E.finite \/ ~CInBounds(E.a, E.lo, E.hi, C.ulpk)) THEN {"ActionInBounds"} ELSE {})
+          \cup (IF C.check_bounds /\ ~E.box /\ ~E.valid THEN {"ActionInBounds"} ELSE {})
           \cup (IF pend[e].src = "explore" /\ pend[e].act # E.act THEN {"ExploredActionPassed"} ELSE {})
           \cup (IF pend[e].src = "policy" /\ pend[e].act # "unknown" /\ pend[e].act # E.act THEN {"ChosenActionPassed"} ELSE {})
           \cup (IF C.epsilon4 = 0 /\ C.start + executed >= C.warmact /\ pend[e].src = "explore" THEN {"EpsilonZeroAlwaysGreedy"} ELSE {})
@@ -147,30 +158,33 @@ EvStep ==
 (* a transition kept for learning: must be the oldest produced-but-unstored one of that stream *)
 EvAdd ==
   /\ E.ev = "add"
-  /\ LET e == E.env IN
-     IF Len(queue[e]) = 0
-     THEN /\ Fail(Common \cup {"StoredNotProduced"}) /\ UNCHANGED queue
-     ELSE LET p == Head(queue[e])
-              rec == [obs |-> E.obs, act |-> E.act, r |-> E.r4, next |-> E.next, term |-> E.term]
-          IN /\ queue' = [queue EXCEPT ![e] = Tail(@)]
-             /\ Fail(Common
-                  \cup (IF ~CStoreObs(rec, p.obs) THEN {"StoreObs"} ELSE {})
-                  \cup (IF C.check_act /\ ~CStoreAct(rec, p.act) THEN {"StoreAct"} ELSE {})
-                  \cup (IF ~CStoreReward(rec, p.r) THEN {"StoreReward"} ELSE {})
-                  \cup (IF ~CStoreNext(rec, p.next) THEN {"StoreNext"} ELSE {})
-                  \cup (IF ~CStoreTerm(rec, p.term) THEN {"StoreTerm"} ELSE {}))
+  /\ LET e == E.env
+         rec == [obs |-> E.obs, act |-> E.act, r |-> E.r4, next |-> E.next, term |-> E.term]
+         src == IF E.auto THEN autoq[e] ELSE queue[e]
+     IN
+     IF Len(src) = 0
+     THEN /\ Fail(Common \cup {"StoredNotProduced"}) /\ UNCHANGED <<queue, autoq>>
+     ELSE LET p == Head(src) IN
+          /\ queue' = IF E.auto THEN queue ELSE [queue EXCEPT ![e] = Tail(@)]
+          /\ autoq' = IF E.auto THEN [autoq EXCEPT ![e] = Tail(@)] ELSE autoq
+          /\ Fail(Common
+               \cup (IF ~CStoreObs(rec, p.obs) THEN {"StoreObs"} ELSE {})
+               \cup (IF C.check_act /\ ~E.auto /\ ~CStoreAct(rec, p.act) THEN {"StoreAct"} ELSE {})
+               \cup (IF ~CStoreReward(rec, p.r) THEN {"StoreReward"} ELSE {})
+               \cup (IF C.check_next /\ E.chk_next /\ ~CStoreNext(rec, p.next) THEN {"StoreNext"} ELSE {})
+               \cup (IF C.check_term /\ E.chk_term /\ ~CStoreTerm(rec, p.term) THEN {"StoreTerm"} ELSE {}))
   /\ UNCHANGED <<phase, lastObs, pend, executed, epsDone>>
 
 EvRet ==
   /\ E.ev = "ret"
   /\ Fail(Common \cup (IF C.ret_applicable /\ ~CReturnMatches(E.n, C.start, executed) THEN {"ReturnedCount"} ELSE {}))
-  /\ UNCHANGED <<phase, lastObs, queue, pend, executed, epsDone>>
+  /\ UNCHANGED <<phase, lastObs, queue, autoq, pend, executed, epsDone>>
 
 (* events without protocol content (buffer sampling, logger calls ...): frame clauses only *)
 EvOther ==
   /\ E.ev \notin {"reset", "explore", "policy", "step", "add", "ret"}
   /\ Fail(Common)
-  /\ UNCHANGED <<phase, lastObs, queue, pend, executed, epsDone>>
+  /\ UNCHANGED <<phase, lastObs, queue, autoq, pend, executed, epsDone>>
 
 Next == /\ l <= Len(T.events)
         /\ (EvReset \/ EvExplore \/ EvPolicy \/ EvStep \/ EvAdd \/ EvRet \/ EvOther)
@@ -178,5 +192,5 @@ Next == /\ l <= Len(T.events)
 
 (* verdict lines: one per trace, printed when the trace is consumed *)
 Verdict == (l = Len(T.events) + 1) =>
-             PrintT(<<"VERDICT", T.id, executed, epsDone, updates, viol>>)
+             PrintT(<<"VERDICT", ToJson([id |-> T.id, executed |-> executed, episodes |-> epsDone, updates |-> updates, viol |-> viol])>>)
 =============================================================================
